@@ -96,9 +96,11 @@ TEXT = {
  "C18": {
   "level": "Theorems C18_dump, C18_string, C18_size: for any two CONNECT packets equal except for the bytes of equally long user name and password, Dump and String "
            "produce identical token lists (literal text and fmt arguments) and every packet type's frame size depends on credentials only through their lengths. "
-           "fmt's rendering of a token is trusted to be a function of (verb, value).",
+           "C18_dump_is_the_source: the dump method of every packet type and every one-line accessor are regenerated from the source as item lists and accessor terms "
+           "(gen/GenDump.v, gen/GenAcc.v), equal to the model's, and their interpretation is the dump_toks the theorem is about. "
+           "fmt's rendering of a token is trusted to be a function of (verb, value); String() is hand-modelled (fingerprint + text correspondence).",
   "note": NOTE,
-  "technique": "Coq non-interference proof over the render/encoder IR + String/Dump text correspondence + credential-pair oracle",
+  "technique": "Coq non-interference proof over the render/encoder IR (dump and accessors regenerated from the source) + String/Dump text correspondence + credential-pair oracle",
  },
  "C19": {
   "level": "Theorems C19_string_total (String's only partial step, the encoder dry run, is defined under the invariant 'will flag => will allocated'), "
@@ -113,7 +115,7 @@ TEXT = {
            "every packet of the domain, WriteTo's bytes are one frame; ReadPacket on any delivery of them followed by anything consumes exactly them, "
            "returns no error and the same type; every accessor (snapshot: scalars, flags, the nested will, ordered lists with duplicates) returns what was "
            "set; re-encoding is byte-identical. C01_api derives the domain for every history of applicable constructor/setter calls with arguments inside "
-           "MQTT's limits (invariant by induction over the history, Proofs/DomP.v). Also C01_wire_roundtrips and C01_frame. The model is tied to the source by "
+           "MQTT's limits (invariant by induction over the history, Proofs/DomP.v). Also C01_wire_roundtrips, C01_frame and C01_snapshot_is_the_accessors (snapshot is the accessor table regenerated from the source's one-line accessors, read in a fixed order; WriteTo as the two-pass positional code is the byte-list encoder, C10_two_pass). The model is tied to the source by "
            "the regenerated encoder/decoder IR (sync lemmas), fingerprints of the hand-modelled functions, correspondence, and the round-trip oracle "
            "(accessor equality + identical re-encoding on the implementation).",
   "note": NOTE,
